@@ -15,7 +15,7 @@ import (
 func init() {
 	register("C11", &monitor{
 		run: runC11,
-		rule: "(1) parameter-domain edges enumerated: every surrogate, negative, out-of-range and boundary rune for every rune-taking method and all 256 bytes for every byte-taking method of StringBuilder, the SafePrinter (Sprintfn and SafeFormat) and ManualBuffer in every mode, each in 5 buffer states; every reflect.Kind, nil and typed nil for JoinTo; every prefix of 40 hostile formats x 9 operand lists; nil and typed-nil operands through all routes; " +
+		rule: "(1) parameter-domain edges enumerated: every surrogate, negative, out-of-range and boundary rune for every rune-taking method and all 256 bytes for every byte-taking method of StringBuilder, the SafePrinter (Sprintfn and SafeFormat) and ManualBuffer in every mode, each in 5 buffer states; every reflect.Kind, nil and typed nil for JoinTo; every prefix of 46 hostile formats x 11 operand lists; nil and typed-nil operands through all routes; " +
 			"(2) user methods that panic at every position of a script (SafeFormat, SafeMessage, String, Error, Format, GoString; 10 payload modes (incl. a typed nil pointer whose own method dereferences it, alone and inside a slice)), at top level, between literals, inside containers and inside nested Print/Printf; " +
 			"oracle: no panic escapes a public call (except where the payload's own printing panics, as in fmt), output well-formed and line-safe, text written before the failing element identical to the text of the same call cut at that element, PANIC= report in place with the payload inside an envelope, text after it intact; " +
 			"non-trivial = an edge value outside the valid domain or a contained panic was observed; distinct = distinct cases",
@@ -189,13 +189,16 @@ var hostileFormats = []string{
 	"%[1]*[2]d", "%-+# 0123.456[3]!v", "%!(", "%[", "%[]", "%[1", "%.[", "%*", "%.*", "%[2]*.[1]*[3]f", "%[1]", "%[0]d", "%[-1]d", "%[x]d", "%[99999999999]d",
 	"%.[1]*d", "%[1].2d", "%[1]2d", "%12345678901234567890d", "%.12345678901234567890d", "%%%", "%", "%\xff", "%\xe2\x80", "%\xe2\x80\xb9", "% ‹", "%+‹d",
 	"%v%", "%v%[", "%d %d %d", "%!v(PANIC=", "%!(EXTRA ", "%w%w%w", "%T%p%w", "%c%U%q%x", "%#+- 0v", "%*.*v", "%[3]*.[2]*[1]v", "%.0s%.0d", "%1000001d",
+	// widths and precisions beyond the formatter's fixed scratch buffers
+	"%#.62U|%#.100U|%#.60U", "%0100d|%+080d|%#067x", "%#0130.100b", "%.80q|%-100.90s|%100c", "%#70.66x|% 090.80X", "%0300.200f|%+0100e|%#0100g",
 }
 
 func c11formats(c *Ctx) {
 	x := 7
 	argLists := [][]interface{}{nil, {nil}, {1}, {1, 2, 3}, {"s", []byte(nil), (*int)(nil)}, {-3, 1000001, &x, tErr{"e"}},
 		// wrapped nils and wrappers as surplus, star and indexed operands
-		{redact.Safe(nil), redact.Unsafe(nil), redact.Safe(redact.Unsafe(nil))}, {1, redact.Safe(nil), 2, redact.Unsafe(nil), nil}, {redact.Safe(3), redact.Unsafe(4), redact.Safe("w")}}
+		{redact.Safe(nil), redact.Unsafe(nil), redact.Safe(redact.Unsafe(nil))}, {1, redact.Safe(nil), 2, redact.Unsafe(nil), nil}, {redact.Safe(3), redact.Unsafe(4), redact.Safe("w")},
+		{0x2039, 0x1f600, 0xe9}, {-42, uint64(1) << 63, 2.5}}
 	type job struct {
 		f    string
 		args int
@@ -655,6 +658,6 @@ func runC11(c *Ctx) {
 	c11panics(c)
 	c11doublePanics(c)
 	c11withoutMarkers(c)
-	c.res.Bound = "rune edges: all 2048 surrogates + 18 boundary values; all 256 bytes; 5 buffer states x 4 implementations; 44 JoinTo operand types x 4 delimiters; every prefix of 40 hostile formats x 9 operand lists x 6 routes; 39 nil-ish and reflection-hostile operands x 58 verbs x 4 flag forms x 6 routes"
+	c.res.Bound = "rune edges: all 2048 surrogates + 18 boundary values; all 256 bytes; 5 buffer states x 4 implementations; 44 JoinTo operand types x 4 delimiters; every prefix of 46 hostile formats x 11 operand lists x 6 routes; 39 nil-ish and reflection-hostile operands x 58 verbs x 4 flag forms x 6 routes"
 	c.res.Assumptions = []string{"outside the claim, per the statement: Grow with a negative count, memory exhaustion; nil destinations/callbacks are programmer errors, not values to print", "a panic raised while printing a panic payload propagates, as in fmt (checked against fmt in C04)"}
 }
